@@ -146,7 +146,10 @@ def attribute(it, base, name, fr, node):
             return VOpaque("device")
         if name in ("T", "mT"):
             d = base.dense()
-            if d.ndim() != 2:
+            n = d.ndim()
+            if name == "mT" and n >= 2:
+                return VTensor(d.permute(list(range(n - 2)) + [n - 1, n - 2]), base.dtype)     # the last two axes exchanged
+            if n != 2:
                 raise Unmodelled(".T of a non-matrix")
             return VTensor(d.permute([1, 0]), base.dtype)
         if name == "grad":
@@ -191,6 +194,8 @@ def subscript(it, base, idx, fr, node):
     if getattr(it, "lenient", False) and isinstance(base, VOpaque):
         return VOpaque("untyped-element")
     if isinstance(base, VConstDict):
+        if isinstance(idx, VBool) and idx.v is None:
+            idx = VBool(it.truth(idx))
         ok, key = it.literal_key(idx)
         if not ok:
             raise Unmodelled("table lookup with a key that is not a literal")
@@ -228,6 +233,8 @@ def subscript(it, base, idx, fr, node):
         n = len(base.items)
         if isinstance(idx, VInt):
             return base.items[it.concrete_index(idx, n)]
+        if isinstance(idx, VBool) and n >= 2:
+            return base.items[1 if it.truth(idx) else 0]          # TABLE[flag]: False -> 0, True -> 1
         if isinstance(idx, VSlice):
             def cv(x, dflt):
                 if x is None:
@@ -457,6 +464,14 @@ def call(it, e: ast.Call, fr):
         args = [it.ev(a, fr) for a in e.args]
         kwargs = {k.arg: it.ev(k.value, fr) for k in e.keywords}
         return method(it, f.recv, f.name, args, kwargs, fr, e)
+    if isinstance(f, VPartial):
+        args = [it.ev(a, fr) for a in e.args]
+        kwargs = {k.arg: it.ev(k.value, fr) for k in e.keywords}
+        if f.func is None:                      # operator.itemgetter(k)
+            if len(args) != 1 or kwargs:
+                raise Unmodelled("itemgetter call")
+            return subscript(it, args[0], f.args[0], fr, e)
+        return call_value(it, f.func, list(f.args) + args, {**f.kwargs, **kwargs}, fr, e)
     if isinstance(f, VRecordType):
         args = [it.ev(a, fr) for a in e.args]
         kwargs = {k.arg: it.ev(k.value, fr) for k in e.keywords}
@@ -486,6 +501,10 @@ def call(it, e: ast.Call, fr):
 
 def call_value(it, f, args, kwargs, fr, node):
     """call a function *value* (a closure, a repository function, a library function) with evaluated arguments"""
+    if isinstance(f, VPartial):
+        if f.func is None:
+            return subscript(it, args[0], f.args[0], fr, node)
+        return call_value(it, f.func, list(f.args) + list(args), {**f.kwargs, **kwargs}, fr, node)
     if isinstance(f, VClosure):
         return it.call_function(f.func, args, kwargs, closure_env=f.env)
     if isinstance(f, VFunc):
@@ -775,7 +794,10 @@ def tensor_method(it, base: VTensor, name, args, kwargs, node):
         if args:
             return VInt(shp[_int_list(it, args[0])[0]])
         return VTuple(tuple(VInt(s) for s in shp))
-    if name in ("squeeze", "unsqueeze", "sum", "diagonal", "transpose", "swapaxes", "tile", "conj_physical"):
+    if name == "repeat":
+        reps = args[0] if len(args) == 1 and isinstance(args[0], (VList, VTuple)) else VTuple(tuple(args))
+        return function(it, "torch.tile", [base, reps], {}, None, node)
+    if name in ("squeeze", "unsqueeze", "sum", "diagonal", "transpose", "swapaxes", "tile", "conj_physical", "flatten", "unflatten", "movedim", "matmul"):
         return function(it, "torch." + name, [base] + list(args), kwargs, None, node)
     if name == "requires_grad_":
         d_ = base.dense()
@@ -853,6 +875,37 @@ def function(it, dotted, args, kwargs, fr, node):
             if init is not None:
                 it.call_function(init, args, kwargs, recv=obj)
             return obj
+        cnode = model.classes[dotted]
+        is_dc = any((isinstance(d_, ast.Name) and d_.id == "dataclass") or (isinstance(d_, ast.Attribute) and d_.attr == "dataclass")
+                    or (isinstance(d_, ast.Call) and ((isinstance(d_.func, ast.Name) and d_.func.id == "dataclass") or (isinstance(d_.func, ast.Attribute) and d_.func.attr == "dataclass")))
+                    for d_ in cnode.decorator_list)
+        is_nt = any((isinstance(b, ast.Name) and b.id == "NamedTuple") or (isinstance(b, ast.Attribute) and b.attr == "NamedTuple") for b in cnode.bases)
+        if (is_dc or is_nt) and model.functions.get(dotted + ".__init__") is None and model.functions.get(dotted + ".__post_init__") is None:
+            # a record: fields in declaration order, defaults that are literals
+            fields, defaults = [], {}
+            for st in cnode.body:
+                if isinstance(st, ast.AnnAssign) and isinstance(st.target, ast.Name):
+                    fields.append(st.target.id)
+                    if st.value is not None:
+                        if not isinstance(st.value, ast.Constant):
+                            raise Unmodelled(f"record {dotted} with a computed default")
+                        defaults[st.target.id] = it.const(st.value.value)
+            if len(args) > len(fields) or any(k not in fields for k in kwargs):
+                raise Raised("TypeError", f"{short}() arguments")
+            attrs = dict(zip(fields, args))
+            for k, v in kwargs.items():
+                if k in attrs:
+                    raise Raised("TypeError", f"{short}() got multiple values for {k}")
+                attrs[k] = v
+            for k in fields:
+                if k not in attrs:
+                    if k not in defaults:
+                        raise Raised("TypeError", f"{short}() missing argument {k}")
+                    attrs[k] = defaults[k]
+            obj = VObj(("record:" if is_nt else "") + dotted, attrs)
+            if is_nt:
+                attrs["__fields__"] = tuple(fields)
+            return obj
         raise Unmodelled(f"instantiation of {dotted}")
     if dotted in model.functions:
         hook = it.hooks.get(("function", dotted))
@@ -895,6 +948,12 @@ def function(it, dotted, args, kwargs, fr, node):
         return torch_function(it, dotted, last, args, kwargs, node)
     if top == "sys":
         return VOpaque(dotted)
+    if dotted == "itertools.starmap" and len(args) == 2 and not kwargs:
+        return VList([call_value(it, args[0], it.iter_concrete(x), {}, fr, node) for x in it.iter_concrete(args[1])])
+    if dotted == "functools.partial" and args:
+        return VPartial(args[0], tuple(args[1:]), dict(kwargs))
+    if dotted == "operator.itemgetter" and len(args) == 1 and not kwargs:
+        return VPartial(None, (args[0],), {})
     if dotted in ("itertools.chain", "itertools.chain.from_iterable") and not kwargs:
         parts = args if dotted == "itertools.chain" else (it.iter_concrete(args[0]) if len(args) == 1 else None)
         if parts is None:
@@ -906,6 +965,11 @@ def function(it, dotted, args, kwargs, fr, node):
             out += it.iter_concrete(p_)
         return VList(out)
     if dotted == "itertools.pairwise" and len(args) == 1 and not kwargs:
+        src = args[0]
+        if isinstance(src, VSeq) and it.facts.norm(src.length).const_value() is None:
+            # neighbouring pairs of a sequence of symbolic length: position k holds (s[k], s[k+1])
+            return VSeq(f"pairwise({src.name})", it.facts.norm(src.length - 1),
+                        lambda k, src=src: VTuple((src.get(it.facts.norm(src.lo + P.of(k))), src.get(it.facts.norm(src.lo + P.of(k) + 1)))))
         items = it.iter_concrete(args[0])
         return VList([VTuple((a, b)) for a, b in zip(items, items[1:])])
     if dotted == "functools.reduce" and len(args) in (2, 3) and not kwargs:
@@ -1131,6 +1195,9 @@ def builtin(it, name, args, kwargs, fr, node):
         return VSlice(*(list(a if not isinstance(a, VNone) else None for a in args) + [None] * (3 - len(args))))
     if name in EXC_NAMES:
         return VOpaque("exception:" + name)
+    if name == "map" and len(args) >= 2 and not kwargs:
+        cols = [it.iter_concrete(a) for a in args[1:]]
+        return VList([call_value(it, args[0], list(xs), {}, fr, node) for xs in zip(*cols)])
     raise Unmodelled(f"builtin {name}")
 
 
@@ -1248,6 +1315,11 @@ def torch_function(it, dotted, last, args, kwargs, node):
         return VTensor(x, args[0].dtype)
     if last == "tensordot":
         dims = kwargs.get("dims", args[2] if len(args) > 2 else None)
+        if isinstance(dims, VInt) and dims.p.const_value() is not None:
+            # dims=k: the last k axes of the first operand with the first k axes of the second
+            kk = int(dims.p.const_value())
+            na = args[0].dense().ndim()
+            dims = VTuple((VList([VInt(P.const(na - kk + j)) for j in range(kk)]), VList([VInt(P.const(j)) for j in range(kk)])))
         if not isinstance(dims, (VTuple, VList)) or len(dims.items) != 2:
             raise Unmodelled("tensordot dims")
         da, db = _axis_list(it, args[0], dims.items[0]), _axis_list(it, args[1], dims.items[1])
@@ -1282,6 +1354,16 @@ def torch_function(it, dotted, last, args, kwargs, node):
             return VTensor(net.einsum(sp, "bij,bjk->bik", [a, b]), args[0].dtype)
         if last != "matmul":
             raise TypeViolation(f"torch.{last} of operands with {a.ndim()} and {b.ndim()} axes")
+        letters = "abcdefghijklmnopq"
+        if a.ndim() > 2 and b.ndim() == 2:
+            lead = letters[:a.ndim() - 2]
+            return VTensor(net.einsum(sp, f"{lead}yz,zw->{lead}yw", [a, b]), args[0].dtype)       # the matrix is applied to every batch entry
+        if a.ndim() == 2 and b.ndim() > 2:
+            lead = letters[:b.ndim() - 2]
+            return VTensor(net.einsum(sp, f"yz,{lead}zw->{lead}yw", [a, b]), args[0].dtype)
+        if a.ndim() == b.ndim() and a.ndim() > 3:
+            lead = letters[:a.ndim() - 2]
+            return VTensor(net.einsum(sp, f"{lead}yz,{lead}zw->{lead}yw", [a, b]), args[0].dtype)
         raise Unmodelled("matmul of operands that are not both matrices or both batches of matrices")
     if last in ("transpose", "swapaxes", "swapdims"):
         d = args[0].dense()
@@ -1297,6 +1379,42 @@ def torch_function(it, dotted, last, args, kwargs, node):
         return VTensor(args[0].val.conj(), args[0].dtype)
     if last in ("clone",):
         return args[0]
+    if last == "flatten" and isinstance(args[0], VTensor):
+        d = args[0].dense()
+        n = d.ndim()
+        a = _int_list(it, args[1])[0] if len(args) > 1 else (_int_list(it, kwargs["start_dim"])[0] if "start_dim" in kwargs else 0)
+        b = _int_list(it, args[2])[0] if len(args) > 2 else (_int_list(it, kwargs["end_dim"])[0] if "end_dim" in kwargs else -1)
+        a, b = a % n if n else 0, b % n if n else 0
+        if a > b:
+            raise TypeViolation("flatten with start_dim after end_dim")
+        shp = d.shape() if hasattr(d, "shape") else [d.axis_size(k) for k in range(n)]
+        tot = ONE
+        for x in shp[a:b + 1]:
+            tot = tot * x
+        return VTensor(net.reshape(sp, d, list(shp[:a]) + [it.facts.norm(tot)] + list(shp[b + 1:])), args[0].dtype)
+    if last == "unflatten" and isinstance(args[0], VTensor) and len(args) == 3:
+        d = args[0].dense()
+        n = d.ndim()
+        k = _int_list(it, args[1])[0] % n
+        shp = [d.axis_size(j) for j in range(n)]
+        sizes = _size_list(it, args[2])
+        if -1 in sizes:
+            known = ONE
+            for x in sizes:
+                if x != -1:
+                    known = known * x
+            q = shp[k].div(it.facts.norm(known))
+            if q is None:
+                raise Unmodelled("unflatten with an inferred size that does not divide the axis")
+            sizes = [q if x == -1 else x for x in sizes]
+        return VTensor(net.reshape(sp, d, shp[:k] + list(sizes) + shp[k + 1:]), args[0].dtype)
+    if last == "movedim" and isinstance(args[0], VTensor) and len(args) == 3:
+        d = args[0].dense()
+        n = d.ndim()
+        src, dst = _int_list(it, args[1])[0] % n, _int_list(it, args[2])[0] % n
+        order = [j for j in range(n) if j != src]
+        order.insert(dst, src)
+        return VTensor(d.permute(order), args[0].dtype)
     if last == "unsqueeze":
         d = args[0].dense()
         k = _int_list(it, args[1])[0]
